@@ -1,9 +1,137 @@
-(* C18 -- placeholder until the datetime theorems are integrated *)
+(* C18: datetimes are stored as naive UTC milliseconds on every path and queried
+   consistently.  Property statements only; the proofs are in Proofs/C18*.v
+   (Values: patch / make_aware; Update: every update operator preserves normality;
+   Project: so does the projection; Store: the state invariant; History: the traces),
+   examples showing that the hypotheses are satisfiable and the conclusions not vacuous in
+   Proofs/C18Examples.v.  No guard was needed: no counterexample was found and the history
+   theorems hold for every history, including the steps on which the model answers
+   EUnmodelled. *)
 From Coq Require Import ZArith List String Bool.
-From Verif Require Import Value Update DatetimeSpec.
+From Verif Require Import Value PyEq BsonOrder Path Filter Update Project Coll HistCheck HistProps
+  DatetimeSpec DatetimeRel.
+From Verif.Proofs Require Import C18Values C18Update C18Project C18Store C18History.
 Import ListNotations.
 Open Scope Z_scope.
+
 Example C18_patch_example :
   patch (VArr [VDate 1577880000123456 (Some 330); VDate 999 None]) =
   VArr [VDate 1577860200123000 None; VDate 0 None].
 Proof. vm_compute. reflexivity. Qed.
+
+(* 1. patch_datetime_awareness_in_document leaves only naive datetimes that are a whole number
+   of milliseconds, at every nesting depth of sub-documents and arrays. *)
+Theorem C18_patch_normal : forall v, dates_normal (patch v) = true.
+Proof. exact patch_normal. Qed.
+Print Assumptions C18_patch_normal.
+
+(* 2. normalising twice is normalising once. *)
+Theorem C18_patch_idem : forall v, patch (patch v) = patch v.
+Proof. exact patch_idem. Qed.
+Print Assumptions C18_patch_idem.
+
+(* 3. two datetimes denoting the same millisecond - whatever their utc offsets and their
+   microseconds - are normalised to the same stored value ... *)
+Theorem C18_patch_same_ms : forall a b, same_ms a b = true -> patch a = patch b.
+Proof. exact patch_same_ms. Qed.
+Print Assumptions C18_patch_same_ms.
+
+(* ... and only those are. *)
+Theorem C18_patch_same_ms_conv : forall x tx y ty,
+  patch (VDate x tx) = patch (VDate y ty) -> same_ms (VDate x tx) (VDate y ty) = true.
+Proof. exact patch_same_ms_conv. Qed.
+Print Assumptions C18_patch_same_ms_conv.
+
+(* 4. a value with normal datetimes only is not changed. *)
+Theorem C18_patch_fixes_normal : forall v, dates_normal v = true -> patch v = v.
+Proof. exact patch_fixes_normal. Qed.
+Print Assumptions C18_patch_fixes_normal.
+
+(* 5. After every operation of ANY history (no guard) every stored document has only normal
+   datetimes, and the documents returned by find / find_one_and_* / distinct to a
+   tz_aware=False client carry naive datetimes only. *)
+Theorem C18_history : forall (pre5 : bool) (ops : list op),
+  c18_ok false ops (model_obs pre5 empty_coll ops) = true.
+Proof. exact history. Qed.
+Print Assumptions C18_history.
+
+(* the same for a tz_aware=True client, which sees the returned documents through
+   make_datetime_timezone_aware_in_document (model_obs_aware, Spec/DatetimeRel.v): every
+   returned datetime is UTC-aware *)
+Theorem C18_history_aware : forall (pre5 : bool) (ops : list op),
+  c18_ok true ops (model_obs_aware pre5 empty_coll ops) = true.
+Proof. exact history_aware. Qed.
+Print Assumptions C18_history_aware.
+
+(* the ingredients of 5, usable from any state: the invariant "every stored document has only
+   normal datetimes" (C18Store.Inv) is preserved by every step, and from a state satisfying it
+   the operations returning documents return normal ones *)
+Theorem C18_step_inv : forall pre5 c o c' r,
+  step pre5 c o = (c', r) -> C18Store.Inv c -> C18Store.Inv c'.
+Proof. exact step_inv. Qed.
+Print Assumptions C18_step_inv.
+
+Theorem C18_step_returns_normal : forall pre5 c o c' v,
+  step pre5 c o = (c', Ok v) -> C18Store.Inv c -> returns_documents o = true ->
+  dates_normal v = true.
+Proof. exact step_res. Qed.
+Print Assumptions C18_step_returns_normal.
+
+(* the update operators: a normal document updated with a normal filter / update document
+   (what Collection._update passes after patching both) stays normal *)
+Theorem C18_apply_update_normal : forall spec update was_insert now doc r,
+  dates_normal spec = true -> dates_normal update = true -> dates_normal doc = true ->
+  apply_update spec update was_insert now doc = Ok r -> dates_normal r = true.
+Proof. exact apply_update_dn. Qed.
+Print Assumptions C18_apply_update_normal.
+
+(* a stored document is a fixpoint of the normalisation: writing it back stores it unchanged *)
+Theorem C18_stored_patch_fix : forall pre5 ops kd,
+  In kd (docs (final pre5 empty_coll ops)) -> patch (snd kd) = snd kd.
+Proof. exact stored_patch_fix. Qed.
+Print Assumptions C18_stored_patch_fix.
+
+(* 6. reads on a tz_aware client return UTC-aware datetimes at every depth, and nothing else
+   changes: normalising the returned value gives the stored value back. *)
+Theorem C18_make_aware : forall v,
+  dates_normal v = true -> dates_aware_utc (make_aware v) = true.
+Proof. exact make_aware_utc. Qed.
+Print Assumptions C18_make_aware.
+
+Theorem C18_patch_make_aware : forall v, dates_normal v = true -> patch (make_aware v) = v.
+Proof. exact patch_make_aware. Qed.
+Print Assumptions C18_patch_make_aware.
+
+(* 7. two filters that are the same up to replacing datetimes by datetimes of the same
+   millisecond (same_ms_value, Spec/DatetimeRel.v) are normalised to the same filter ... *)
+Theorem C18_same_ms_value_patch : forall f g, same_ms_value f g = true -> patch f = patch g.
+Proof. exact same_ms_value_patch. Qed.
+Print Assumptions C18_same_ms_value_patch.
+
+(* ... hence match the same documents ... *)
+Theorem C18_query_consistent : forall f g d,
+  same_ms_value f g = true -> filter_applies (patch f) d = filter_applies (patch g) d.
+Proof. exact query_consistent. Qed.
+Print Assumptions C18_query_consistent.
+
+(* ... and the operations of the collection cannot tell them apart: same outcome, same state *)
+Theorem C18_find_consistent : forall c f g proj sort skip limit,
+  same_ms_value f g = true ->
+  find_op c f proj sort skip limit = find_op c g proj sort skip limit.
+Proof. exact find_consistent. Qed.
+Print Assumptions C18_find_consistent.
+
+Theorem C18_count_consistent : forall c f g skip limit,
+  same_ms_value f g = true -> count_op c f skip limit = count_op c g skip limit.
+Proof. exact count_consistent. Qed.
+Print Assumptions C18_count_consistent.
+
+Theorem C18_delete_consistent : forall c f g multi,
+  same_ms_value f g = true -> delete_op c f multi = delete_op c g multi.
+Proof. exact delete_consistent. Qed.
+Print Assumptions C18_delete_consistent.
+
+Theorem C18_update_consistent : forall pre5 c f g u w multi upsert,
+  same_ms_value f g = true -> same_ms_value u w = true ->
+  update pre5 c f u multi upsert = update pre5 c g w multi upsert.
+Proof. exact update_consistent. Qed.
+Print Assumptions C18_update_consistent.
